@@ -39,7 +39,7 @@ def run_impl(case):
             shp = "u"
         shape = unsigned(w) if shp == "u" else signed(w)
     mask = (1 << w) - 1
-    init = rnd.getrandbits(w) if w else 0
+    init = lib.bits(rnd, w) if w else 0
     conv = (lambda v: to_signed(v, w)) if shp == "s" else (lambda v: v)
     cls = {"R": action.R, "W": action.W, "RW": action.RW, "RW1C": action.RW1C, "RW1S": action.RW1S,
            "RES": rnd.choice([action.ResRAW0, action.ResRAWL, action.ResR0WA, action.ResR0W0])}[kind]
@@ -90,7 +90,7 @@ def run_impl(case):
         st = init
         for t in range(N):
             rstb, wstb = int(rnd.random() < .4), int(rnd.random() < .5)
-            wdata, aux = rnd.getrandbits(w) if w else 0, rnd.getrandbits(w) if w else 0
+            wdata, aux = lib.bits(rnd, w) if w else 0, lib.bits(rnd, w) if w else 0
             if exhaustive:
                 code = t % (1 << (2 * w + 1))
                 wstb, wdata, aux = code & 1, (code >> 1) & mask, (code >> (1 + w)) & mask
@@ -99,7 +99,7 @@ def run_impl(case):
             if inreg:
                 ctx.set(reg.element.r_stb, rstb)
                 ctx.set(reg.element.w_stb, wstb)
-                ctx.set(reg.element.w_data, (wdata << off) | rnd2.getrandbits(off) | (rnd2.getrandbits(6) << (off + w)))
+                ctx.set(reg.element.w_data, (wdata << off) | lib.bits(rnd2, off) | (lib.bits(rnd2, 6) << (off + w)))
             else:
                 ctx.set(dut.port.r_stb, rstb)
                 ctx.set(dut.port.w_stb, wstb)
